@@ -4,16 +4,25 @@ import Mochi.Lemmas.BrokerDelivery
 /-!
 # C03 — Every published message reaches exactly the entitled subscribers, once each
 
-Proved over the model (for every index, topic and selection of shared members):
-* the subscriber map `publishToSubscribers` iterates has **one entry per client id** — after gathering
-  over any number of overlapping subscriptions and after merging the selected shared subscriptions —
-  and each entry makes at most one write, hence at most one copy per publish and client;
-* the two gates of `publishToClient` (No Local for the publisher's own message, read permission).
-The "exactly the entitled" direction rests on C01's scan exactness plus these; end to end it is
-checked on every run by the correspondence oracle (declarative matcher over the entry set vs what
-each connection actually received).  Known finding F03 (recorded): `Subscription.Merge` ORs No Local,
-so a client holding a No Local and a plain subscription that both match its own publish gets nothing.
-Partial: schedules (concurrent publishers) are not exhibited by the sequential model.
+Proved over the model:
+* (any index, topic, selection of shared members) the subscriber map `publishToSubscribers` iterates has **one entry
+  per client id** — after gathering over any number of overlapping subscriptions and after merging the selected shared
+  subscriptions — and each entry makes at most one write; the two gates of `publishToClient` (No Local, read permission);
+* **the delivery theorem** (second half of this file; lemmas in `Mochi/Lemmas/BrokerDelivery.lean`): for a message that
+  is QoS 0 after shaping and whose topic no shared subscription matches, the connections written a PUBLISH are exactly
+  the entitled ones, each at most once — at state level (`publishToSubscribers_writes_exact`), with the subscriber map
+  replaced by the declarative matcher over the index entries (`C03_delivery_exact_state_partial`), and in every state
+  reached by ops without schedule ops and configuration changes (`C03_delivery_exact_reach_partial`,
+  `C03_delivery_exact_seq_partial`), where "holds a matching entry" is also read off the session.
+The statement is made with the model's merge of No Local (`EntitledF03`); C03 as stated (`C03_delivery_full`, with
+`EntitledSpec`) is FALSE of the model and of the broker — `C03_delivery_full_false_F03`, recorded finding F03:
+`Subscription.Merge` ORs No Local, so a client holding a No Local and a plain subscription that both match its own
+publish gets nothing.  Outside that situation both notions agree (`C03_delivery_exact_reach_spec_partial`), and
+soundness needs no proviso (`C03_delivery_sound_reach_partial`).
+Excluded (partial): shared subscriptions matching the topic, deliveries of QoS > 0 (in-flight limit, packet ids, send
+quota), the topic bytes under topic aliases, schedule ops (concurrent handlers), and the path from an inbound PUBLISH
+packet to `publishToSubscribers` (the theorems are about `publishToSubscribers s pk` in a reachable state `s`).
+End to end the correspondence oracle checks the same on every run.
 -/
 namespace Mochi.Broker
 open Mochi.Topics
@@ -128,8 +137,9 @@ example :
 `EntitledVia s pk subs n`, `IsCopy`, `pubConn`, `ConnDistinct`: `Mochi/Lemmas/BrokerDelivery.lean`. -/
 
 /-- **Step 1.**  For a state `s` with the tables well-formed (`WF`, kept by every history) and one connection per
-    client object (`ConnDistinct`), an application message `pk` (PUBLISH, QoS 0, not marked "ignore" by the publish
-    hook) and no shared subscription matching its topic:
+    client object (`ConnDistinct`), an application message `pk` (PUBLISH, not marked "ignore" by the publish hook) that
+    is QoS 0 after shaping (its QoS is 0, or that of every entry of the subscriber map is) and no shared subscription
+    matching its topic:
 
     * a PUBLISH is written to connection `n` **iff** `n` is the connection of a client object registered under its
       id that is open, not inline, whose peer is not gone, that has an entry in the subscriber map
@@ -139,7 +149,8 @@ example :
     * every output is an inline delivery or a copy of the message (payload, QoS 0, origin; the topic bytes may be
       replaced by a topic alias). -/
 theorem publishToSubscribers_writes_exact (s : Server) (hw : WF s) (hcd : ConnDistinct s) (pk : Msg)
-    (hig : pk.ignore = false) (ht : pk.type = 3) (hq : pk.qos = 0)
+    (hig : pk.ignore = false) (ht : pk.type = 3)
+    (hq : pk.qos = 0 ∨ ∀ cs ∈ (subscribers s.topics pk.topic).subs, cs.2.qos = 0)
     (hsh : (subscribers s.topics pk.topic).shared = []) (n : Nat) :
     ((∃ ver m me, Out.wrote n (.publish ver m me) ∈ (publishToSubscribers s pk).2) ↔
       EntitledVia s pk (subscribers s.topics pk.topic).subs n) ∧
@@ -163,7 +174,8 @@ theorem publishToSubscribers_writes_exact (s : Server) (hw : WF s) (hcd : ConnDi
     subscription of the client has No Local" (F03): `EntitledF03`.  Topic: non-empty, no level `#` (PUBLISH topics
     contain no wildcard: `publishValidate`). -/
 theorem C03_delivery_exact_state_partial (s : Server) (hw : WF s) (hcd : ConnDistinct s) (hx : IdxOK s.topics)
-    (pk : Msg) (hig : pk.ignore = false) (ht : pk.type = 3) (hq : pk.qos = 0) (hne : pk.topic ≠ [])
+    (pk : Msg) (hig : pk.ignore = false) (ht : pk.type = 3)
+    (hq : pk.qos = 0 ∨ ∀ cs ∈ (subscribers s.topics pk.topic).subs, cs.2.qos = 0) (hne : pk.topic ≠ [])
     (hnh : ∀ t ∈ splitLevels pk.topic, t ≠ [hash]) (hsh : (subscribers s.topics pk.topic).shared = []) (n : Nat) :
     ((∃ ver m me, Out.wrote n (.publish ver m me) ∈ (publishToSubscribers s pk).2) ↔ EntitledF03 s pk n) ∧
     ((publishToSubscribers s pk).2.filterMap pubConn).count n ≤ 1 ∧
@@ -174,7 +186,8 @@ theorem C03_delivery_exact_state_partial (s : Server) (hw : WF s) (hcd : ConnDis
 /-- the same with the hypothesis of C01: the index is the result of a history of index operations -/
 theorem C03_delivery_exact_runOps_partial (s : Server) (hw : WF s) (hcd : ConnDistinct s) (iops : List IOp)
     (hx : s.topics = runOps iops)
-    (pk : Msg) (hig : pk.ignore = false) (ht : pk.type = 3) (hq : pk.qos = 0) (hne : pk.topic ≠ [])
+    (pk : Msg) (hig : pk.ignore = false) (ht : pk.type = 3)
+    (hq : pk.qos = 0 ∨ ∀ cs ∈ (subscribers s.topics pk.topic).subs, cs.2.qos = 0) (hne : pk.topic ≠ [])
     (hnh : ∀ t ∈ splitLevels pk.topic, t ≠ [hash]) (hsh : (subscribers s.topics pk.topic).shared = []) (n : Nat) :
     ((∃ ver m me, Out.wrote n (.publish ver m me) ∈ (publishToSubscribers s pk).2) ↔ EntitledF03 s pk n) ∧
     ((publishToSubscribers s pk).2.filterMap pubConn).count n ≤ 1 :=
@@ -201,20 +214,22 @@ def C03_delivery_full : Prop :=
     invariants `SyncInv` (index and sessions agree), `WF` (the tables are maps), `ConnMap` (one connection per
     client object), plus the session reading of "holds a matching entry". -/
 theorem C03_delivery_exact_inv_partial (s : Server) (hs : SyncInv s) (hw : WF s) (hcm : ConnMap s)
-    (pk : Msg) (hig : pk.ignore = false) (ht : pk.type = 3) (hq : pk.qos = 0)
+    (pk : Msg) (hig : pk.ignore = false) (ht : pk.type = 3)
+    (hq : pk.qos = 0 ∨ ∀ c sub, MatchingSub s.topics pk.topic c sub → sub.qos = 0)
     (hne : pk.topic ≠ []) (hnh : ∀ t ∈ splitLevels pk.topic, t ≠ [hash])
     (hsh : (subscribers s.topics pk.topic).shared = []) (n : Nat) :
     ((∃ ver m me, Out.wrote n (.publish ver m me) ∈ (publishToSubscribers s pk).2) ↔ EntitledF03 s pk n) ∧
     (EntitledF03 s pk n ↔ EntitledSession s pk n) ∧
     ((publishToSubscribers s pk).2.filterMap pubConn).count n ≤ 1 ∧
     ∀ x ∈ (publishToSubscribers s pk).2, (∃ id, x = Out.inline id pk.topic pk.payload) ∨ IsCopy pk x := by
-  obtain ⟨h1, h2, h3⟩ := C03_delivery_exact_state_partial s hw hcm.distinct hs.idx pk hig ht hq hne hnh hsh n
+  have hq' := hq.imp id (merged_qos_zero s.topics hs.idx pk.topic hne hnh (C03_one_entry_per_client s.topics pk.topic))
+  obtain ⟨h1, h2, h3⟩ := C03_delivery_exact_state_partial s hw hcm.distinct hs.idx pk hig ht hq' hne hnh hsh n
   exact ⟨h1, entitledF03_iff_session hs hw pk n, h2, h3⟩
 
 /-- **Step 3 — `C03_delivery_exact_seq`, restricted (hence `_partial`).**  For every state `s` reached from
     `init caps` by ops that are not schedule ops (connection numbers fresh), interleaved with configuration changes
-    (ACL denials, publish hook, authentication mode, seeds: `ReachSeq`), and every application message `pk` of QoS 0
-    whose topic no shared subscription of the index matches:
+    (ACL denials, publish hook, authentication mode, seeds: `ReachSeq`), and every application message `pk` that is
+    QoS 0 after shaping and whose topic no shared subscription of the index matches:
 
     1. a PUBLISH is written to connection `n` **iff** `EntitledF03 s pk n` — `n` is the connection of a client
        object registered under its id, open, not inline, peer not gone; the index holds a plain subscription of that
@@ -225,11 +240,12 @@ theorem C03_delivery_exact_inv_partial (s : Server) (hs : SyncInv s) (hw : WF s)
     3. connection `n` is written at most one PUBLISH;
     4. every output is an inline delivery or a copy of the message (payload, QoS 0, origin).
 
-    Excluded: shared subscriptions matching the topic (`hsh`), QoS > 0 (in-flight limit, packet identifiers, send
-    quota: `hq`), topic aliases as far as the topic BYTES of the copy go (conclusion 4 does not mention them),
+    Excluded: shared subscriptions matching the topic (`hsh`), deliveries of QoS > 0 (in-flight limit, packet
+    identifiers, send quota — `hq`: the message is QoS 0, or every matching subscription of the index is), topic aliases as far as the topic BYTES of the copy go (conclusion 4 does not mention them),
     schedule ops (`ReachSeq`), and the No Local merge (1. states what the model does, not what C03 asks: F03). -/
 theorem C03_delivery_exact_reach_partial (caps : Caps) (s : Server) (hr : ReachSeq caps s)
-    (pk : Msg) (hig : pk.ignore = false) (ht : pk.type = 3) (hq : pk.qos = 0)
+    (pk : Msg) (hig : pk.ignore = false) (ht : pk.type = 3)
+    (hq : pk.qos = 0 ∨ ∀ c sub, MatchingSub s.topics pk.topic c sub → sub.qos = 0)
     (hne : pk.topic ≠ []) (hnh : ∀ t ∈ splitLevels pk.topic, t ≠ [hash])
     (hsh : (subscribers s.topics pk.topic).shared = []) (n : Nat) :
     ((∃ ver m me, Out.wrote n (.publish ver m me) ∈ (publishToSubscribers s pk).2) ↔ EntitledF03 s pk n) ∧
@@ -241,7 +257,8 @@ theorem C03_delivery_exact_reach_partial (caps : Caps) (s : Server) (hr : ReachS
 /-- the same for `s := run (init caps) ops`, `ops` a history without schedule ops (no configuration change: no
     ACL denial is ever in force in such a state — use `C03_delivery_exact_reach_partial` for those) -/
 theorem C03_delivery_exact_seq_partial (caps : Caps) (ops : List Op) (hseq : SeqOps ops)
-    (hf : OpsFresh (init caps) ops) (pk : Msg) (hig : pk.ignore = false) (ht : pk.type = 3) (hq : pk.qos = 0)
+    (hf : OpsFresh (init caps) ops) (pk : Msg) (hig : pk.ignore = false) (ht : pk.type = 3)
+    (hq : pk.qos = 0 ∨ ∀ c sub, MatchingSub (run (init caps) ops).topics pk.topic c sub → sub.qos = 0)
     (hne : pk.topic ≠ []) (hnh : ∀ t ∈ splitLevels pk.topic, t ≠ [hash])
     (hsh : (subscribers (run (init caps) ops).topics pk.topic).shared = []) (n : Nat) :
     ((∃ ver m me, Out.wrote n (.publish ver m me) ∈ (publishToSubscribers (run (init caps) ops) pk).2) ↔
@@ -255,7 +272,8 @@ theorem C03_delivery_exact_seq_partial (caps : Caps) (ops : List Op) (hseq : Seq
 /-- outside the F03 situation (the publisher holds a matching subscription with No Local AND a matching one without)
     the recipients are exactly those C03 names -/
 theorem C03_delivery_exact_reach_spec_partial (caps : Caps) (s : Server) (hr : ReachSeq caps s)
-    (pk : Msg) (hig : pk.ignore = false) (ht : pk.type = 3) (hq : pk.qos = 0)
+    (pk : Msg) (hig : pk.ignore = false) (ht : pk.type = 3)
+    (hq : pk.qos = 0 ∨ ∀ c sub, MatchingSub s.topics pk.topic c sub → sub.qos = 0)
     (hne : pk.topic ≠ []) (hnh : ∀ t ∈ splitLevels pk.topic, t ≠ [hash])
     (hsh : (subscribers s.topics pk.topic).shared = []) (hmix : ¬ MixedNoLocal s pk) (n : Nat) :
     ((∃ ver m me, Out.wrote n (.publish ver m me) ∈ (publishToSubscribers s pk).2) ↔ EntitledSpec s pk n) ∧
@@ -265,7 +283,8 @@ theorem C03_delivery_exact_reach_spec_partial (caps : Caps) (s : Server) (hr : R
 
 /-- soundness holds without the F03 proviso: whoever is written the message is entitled in the sense of C03 -/
 theorem C03_delivery_sound_reach_partial (caps : Caps) (s : Server) (hr : ReachSeq caps s)
-    (pk : Msg) (hig : pk.ignore = false) (ht : pk.type = 3) (hq : pk.qos = 0)
+    (pk : Msg) (hig : pk.ignore = false) (ht : pk.type = 3)
+    (hq : pk.qos = 0 ∨ ∀ c sub, MatchingSub s.topics pk.topic c sub → sub.qos = 0)
     (hne : pk.topic ≠ []) (hnh : ∀ t ∈ splitLevels pk.topic, t ≠ [hash])
     (hsh : (subscribers s.topics pk.topic).shared = []) (n : Nat)
     (h : ∃ ver m me, Out.wrote n (.publish ver m me) ∈ (publishToSubscribers s pk).2) : EntitledSpec s pk n :=
@@ -314,11 +333,15 @@ example : (publishToSubscribers c03State c03Msg).2.filterMap pubConn = [2, 1] :=
 example : (publishToSubscribers c03State c03Msg).2.length = 3 ∧
     Out.inline 7 [97, 47, 98] [1] ∈ (publishToSubscribers c03State c03Msg).2 := by decide
 
+/-- a QoS 1 message is covered too: every matching subscription is QoS 0 -/
+example : (∀ cs ∈ (subscribers c03State.topics c03Msg.topic).subs, cs.2.qos = 0) ∧
+    (publishToSubscribers c03State { c03Msg with qos := 1, id := 9 }).2.filterMap pubConn = [2, 1] := by decide
+
 /-- the theorem, instantiated: `x` and `y` are entitled (read off the outputs), the publisher (No Local), `z` (read
     denial) and `w` (closed) are not -/
 example : EntitledF03 c03State c03Msg 1 ∧ EntitledF03 c03State c03Msg 2 ∧ ¬ EntitledF03 c03State c03Msg 3 ∧
     ¬ EntitledF03 c03State c03Msg 4 ∧ ¬ EntitledF03 c03State c03Msg 5 := by
-  have h := fun n => (C03_delivery_exact_reach_partial {} c03State c03State_reach c03Msg rfl rfl rfl (by decide)
+  have h := fun n => (C03_delivery_exact_reach_partial {} c03State c03State_reach c03Msg rfl rfl (Or.inl rfl) (by decide)
     (by decide) (by decide) n).1
   have ho : (publishToSubscribers c03State c03Msg).2.filterMap pubConn = [2, 1] := by decide
   refine ⟨(h 1).mp (mem_pubConns.mp (by rw [ho]; decide)), (h 2).mp (mem_pubConns.mp (by rw [ho]; decide)), ?_, ?_, ?_⟩ <;>
